@@ -27,6 +27,16 @@ from .exprgen import T_INT, T_DEC, T_STR, T_DATE, T_BOOL, PY, E, mk
 D = decimal.Decimal
 EXTRA_TARGETS = ['Proofs/RegistryTie.vo', 'Proofs/TypingCastsProofs.vo']
 ASSUMPTIONS = [
+    'translator tie of the expression-level typing path (C04_source_unaryop / _between / _inop / _binaryop / _function / '
+    '_binaryop_terminates, group exprs, harness/vf/src_exprs.py rules X1-X6): PyMini is the semantics of the translated methods; '
+    'trusted encodings and primitives in coq/Model/PrimsExprs.v - a class of OPERATORS / FUNCTIONS is a record (registry, name, '
+    'position, declared input types) built from the registry snapshot, calling it (primitive "apply") constructs a node with the '
+    "overload's declared output type at the address an allocator parameter gives it (the theorems assume the heap holds the nodes the "
+    'method constructs; aggregators without dtype take their operand\'s, as EvalAggregator.__init__), calling a node on None yields '
+    'an opaque folded value, EvalConstant / EvalCoalesce construct the model\'s NConst(CFold ..) / NCoalesce; CompilationErrors are '
+    'told apart by the template of their message; self._compile, types.function_lookup (tied by C04_source_function_lookup), '
+    'types.name, EvalConstantSubquery1D are opaque callables assumed to return the model\'s values; `while True` of _binaryop is '
+    'unrolled three times, the guard of a fourth pass has no meaning (Stuck) and is proved unreachable',
     'model universe of datatypes: int, Decimal, str, date, bool, object, NoneType; collections, Amount, Position, '
     'Inventory, relativedelta, structured types are covered by the implementation-only sweeps, not by the theorems',
     'has_type of the model is exact (a bool value only under bool/object), which implies isinstance; tables whose int '
